@@ -2,6 +2,7 @@
 from .. import enginecamp as ec
 from .. import framework as fw
 from .. import imagegen as ig
+from .. import nativecamp
 
 MAGIC = 0xBB67AE8584CAA73B
 
@@ -75,7 +76,7 @@ def gen_cases(ctx, n):
 
 
 def run(ctx):
-    fw.static_proofs(ctx, ['Properties/C07.v'])
+    fw.static_proofs(ctx, ['Properties/C07.v', 'Properties/C01_native.v'])
     so = fw.build_fjcore(ctx)
     groups = gen_cases(ctx, ctx.n(700, 20000))
     cases = [c for g in groups for c in g]
@@ -94,6 +95,9 @@ def run(ctx):
         ctx.sample({'case': {k: c.get(k) for k in ('w', 'segs', 'input', 'engine', 'no_flat', 'flat_max_words', 'measure', 'last_ops')},
                     'observed': {k: r.get(k) for k in ('cause', 'ops', 'fault', 'last_ops', 'storage')}})
     ec.compare_with_machine(ctx, 'c07', cases, results, what='storage layout / engine independence')
+    ncases = [(c, r) for c, r in zip(cases, results) if c['engine'] == 'native']
+    ncases = ncases[:ctx.n(900, 30000)]
+    nativecamp.compare_native(ctx, [c for c, _ in ncases], [r for _, r in ncases], name='c07native')
     ctx.coverage['rule'] = ('generated images with sparse geometry (segments around 2^14k page edges, the flat-window limit, '
                             '2^20..2^57, words equal to the w=64 fill constant) x input x {fast, native with random '
                             'flat_max_words / forced paged / measurement loop / last-ops ring length}; observables: cause, ops, '
